@@ -1077,6 +1077,10 @@ class NinjaBackend(backends.Backend):
                 pass
             elif is_compile_target:
                 generated_source_files.append(raw_src)
+                if compilers.is_header(rel_src):
+                    # it is preprocessed like every source of a compile target,
+                    # and the other sources may include it
+                    header_deps.append(raw_src)
             else:
                 # Assume anything not specifically a source file is a header. This is because
                 # people generate files with weird suffixes (.inc, .fh) that they then include
